@@ -162,3 +162,121 @@ Proof.
       rewrite F1, F2. reflexivity. }
     subst p. cbn [to_subscription p_agg]. exact A.
 Qed.
+
+(* ------------------------------------------------------------------------------------------- *)
+(* P_att *)
+
+Lemma job_eqb_iff : forall a b, job_eqb a b = true <-> a = b.
+Proof.
+  intros [a1 a2 a3 a4 a5 a6 a7] [b1 b2 b3 b4 b5 b6 b7]. unfold job_eqb. cbn.
+  rewrite !andb_true_iff, !N.eqb_eq. split.
+  - intros [[[[[[-> ->] ->] ->] ->] ->] ->]. reflexivity.
+  - intro H. injection H as -> -> -> -> -> -> ->. repeat split.
+Qed.
+
+Lemma quad_eqb_iff : forall a b, quad_eqb a b = true <-> a = b.
+Proof.
+  intros [[[a1 a2] a3] a4] [[[b1 b2] b3] b4]. unfold quad_eqb.
+  rewrite !andb_true_iff, !N.eqb_eq. split.
+  - intros [[[-> ->] ->] ->]. reflexivity.
+  - intro H. injection H as -> -> -> ->. repeat split.
+Qed.
+
+Lemma P_att_unfold : forall pr kn prev dslot cur no_acct atts jobs,
+  P_att pr kn prev dslot cur false no_acct atts jobs =
+  (let js := map fst jobs in
+   let sub := known_get (dslot / spe pr) kn in
+   forallb (fun j => memb job_eqb j js) prev &&
+   nodupb pair_eqb (map jkey js) &&
+   forallb (fun jo => option_eqb quad_eqb (snd jo)
+                        (Some (j_dslot (fst jo), j_root (fst jo), j_val (fst jo), j_sig (fst jo)))) jobs &&
+   forallb (fun j =>
+     memb pair_eqb (jkey j) (map jkey prev) ||
+     match sub with
+     | None => false
+     | Some (sign_fail, ds) =>
+         existsb (fun a => pair_eqb (a_slot a, a_comm a) (jkey j) && (a_root a =? j_root j)) atts &&
+         (cur <=? j_slot j) &&
+         (j_time j =? j_slot j * slot_ms pr + delay_ms pr) &&
+         (j_dslot j =? j_slot j) &&
+         sign_ok_of sign_fail (j_slot j) &&
+         acct_ok_of no_acct (j_val j) &&
+         existsb (fun d => (d_val d =? j_val j) && pair_eqb (dkey d) (jkey j) && (d_sig d =? j_sig j) &&
+                           (negb (consistent ds) || selected (agg_target pr) d)) ds
+     end) js &&
+   match sub with
+   | None => true
+   | Some (sign_fail, ds) =>
+       negb (consistent ds) ||
+       forallb (fun a =>
+         let sel := filter (fun d => pair_eqb (dkey d) (a_slot a, a_comm a) && selected (agg_target pr) d) ds in
+         implb ((cur <=? a_slot a) && sign_ok_of sign_fail (a_slot a) &&
+                negb (match sel with [] => true | _ => false end) &&
+                forallb (fun d => acct_ok_of no_acct (d_val d)) sel)
+               (memb pair_eqb (a_slot a, a_comm a) (map jkey js))) atts
+   end).
+Proof. reflexivity. Qed.
+
+(* Soundness of the predicate on an observed attest step: nothing scheduled before is lost; job
+   names are distinct; the real Aggregate ran with the duty the job carries; every new job is for
+   an attested committee, not in the past, at StartOfSlot + delay, for one of our validators that
+   has that duty with its own slot signature (selected, when the answer was self-consistent); and
+   every attested committee with a selected validator (accounts obtainable) has a job. *)
+Lemma P_att_sound : forall pr kn prev dslot cur no_acct atts jobs,
+  P_att pr kn prev dslot cur false no_acct atts jobs = true ->
+  let js := map fst jobs in
+  (forall j, In j prev -> In j js) /\
+  NoDup (map jkey js) /\
+  (forall j o, In (j, o) jobs -> o = Some (j_dslot j, j_root j, j_val j, j_sig j)) /\
+  (forall j, In j js -> ~ In (jkey j) (map jkey prev) ->
+     exists sf ds, known_get (dslot / spe pr) kn = Some (sf, ds) /\
+       (exists a, In a atts /\ akey a = jkey j /\ a_root a = j_root j) /\
+       cur <= j_slot j /\ j_time j = j_slot j * slot_ms pr + delay_ms pr /\ j_dslot j = j_slot j /\
+       acct_ok_of no_acct (j_val j) = true /\
+       exists d, duty_for (sign_ok_of sf) ds (j_slot j) (j_comm j) d /\ d_val d = j_val j /\ d_sig d = j_sig j /\
+                 (consistent_duties ds -> selected (agg_target pr) d = true)) /\
+  (forall sf ds, known_get (dslot / spe pr) kn = Some (sf, ds) -> consistent_duties ds ->
+     forall a d, In a atts -> cur <= a_slot a ->
+       duty_for (sign_ok_of sf) ds (a_slot a) (a_comm a) d -> selected (agg_target pr) d = true ->
+       (forall d', In d' ds -> dkey d' = akey a -> selected (agg_target pr) d' = true ->
+                   acct_ok_of no_acct (d_val d') = true) ->
+       In (akey a) (map jkey js)).
+Proof.
+  intros pr kn prev dslot cur no_acct atts jobs H js. rewrite P_att_unfold in H. cbv zeta in H. fold js in H.
+  apply andb_true_iff in H as [H H5]. apply andb_true_iff in H as [H H4].
+  apply andb_true_iff in H as [H H3]. apply andb_true_iff in H as [H1 H2].
+  rewrite forallb_forall in H1, H3, H4. apply nodupb_iff in H2.
+  split; [|split; [exact H2|split; [|split]]].
+  - intros j Hj. apply (memb_spec job_eqb job_eqb_iff). apply H1. exact Hj.
+  - intros j o Hjo. specialize (H3 (j, o) Hjo). cbn [fst snd] in H3.
+    apply (option_eqb_spec quad_eqb quad_eqb_iff) in H3. exact H3.
+  - intros j Hj Hn. specialize (H4 j Hj). apply orb_true_iff in H4 as [H4|H4].
+    + apply memb_pair_iff in H4. contradiction.
+    + destruct (known_get (dslot / spe pr) kn) as [[sf ds]|]; [|discriminate].
+      exists sf, ds. split; [reflexivity|].
+      repeat (apply andb_true_iff in H4 as [H4 ?]).
+      match goal with X : existsb _ ds = true |- _ => apply existsb_exists in X as (d & Hd & Hb) end.
+      apply existsb_exists in H4 as (a & Ha & Hab). apply andb_true_iff in Hab as [Hk Hr].
+      apply pair_eqb_iff in Hk. apply N.eqb_eq in Hr.
+      repeat (apply andb_true_iff in Hb as [Hb ?]).
+      apply N.eqb_eq in Hb.
+      match goal with X : pair_eqb (dkey d) (jkey j) = true |- _ => apply pair_eqb_iff in X; rename X into Kd end.
+      unfold dkey, jkey in Kd. injection Kd as K1 K2.
+      split; [exists a; auto|]. split; [apply N.leb_le; assumption|].
+      split; [apply N.eqb_eq; assumption|]. split; [apply N.eqb_eq; assumption|]. split; [assumption|].
+      exists d. split; [unfold duty_for; auto|]. split; [exact Hb|]. split; [apply N.eqb_eq; assumption|].
+      intro C. apply consistent_iff in C.
+      match goal with X : negb (consistent ds) || _ = true |- _ => rewrite C in X; exact X end.
+  - intros sf ds K C a d Ha Hc Hd Hs Hacct. rewrite K in H5. pose proof C as C'. apply consistent_iff in C'.
+    rewrite C' in H5. cbn [negb orb] in H5. rewrite forallb_forall in H5. specialize (H5 a Ha). cbv zeta in H5.
+    set (sel := filter (fun d => pair_eqb (dkey d) (a_slot a, a_comm a) && selected (agg_target pr) d) ds) in *.
+    destruct Hd as (G1 & G2 & G3 & G4).
+    assert (Hin : In d sel).
+    { apply filter_In. split; [exact G1|]. rewrite Hs, andb_true_r. apply pair_eqb_iff. unfold dkey. congruence. }
+    assert (Hall : forallb (fun d => acct_ok_of no_acct (d_val d)) sel = true).
+    { apply forallb_forall. intros d' Hd'. apply filter_In in Hd' as [I1 I2]. apply andb_true_iff in I2 as [I2 I3].
+      apply pair_eqb_iff in I2. apply Hacct; assumption. }
+    rewrite Hall, G4, (proj2 (N.leb_le _ _) Hc) in H5.
+    destruct sel as [|x sel']; [destruct Hin|]. cbn [negb andb implb] in H5.
+    apply memb_pair_iff in H5. exact H5.
+Qed.
